@@ -54,3 +54,20 @@ def run(ctx):
     F.check_no_effects(ctx, "E7.deterministic", P, ["SecretKey<C>::proof_of_possession", "ProofOfPossession<C>::verify", "SecretKey<C>::public_key"])
     for fk in ("helpers::pairing_g1_g2", "helpers::pairing_g2_g1"):
         check_pipeline(ctx, P, fk)
+    # "any change to the proof makes it fail": a proof (and the key it is checked against) enters only through the
+    # subgroup-checking point decoders - an unchecked decoder would let a proof shifted by a small-order point parse
+    from . import posctl as PC
+
+    bad = [(f, bb, p) for f, bb, p in PC.unchecked_calls(P) if _concerns(P, f, ("ProofOfPossession", "PublicKey", "BlsSerde", "serialize_g", "deserialize_g"))]
+    ctx.ob("E7.unchecked", "proof-of-possession / public-key decoders", not bad, "unchecked point decoders on the way of a proof of possession or public key: %s" % [(f.key, p) for f, bb, p in bad][:4], where=where(bad[0][0], bad[0][1]) if bad else None)
+    PC.run_posctl(ctx, "E7.unchecked", "unchecked")
+
+
+def _concerns(P, f, words):
+    base = f
+    k = 0
+    while base is not None and base.kind == "Closure" and k < 4:
+        base = P.fns.get(base.j.get("parent_key"))
+        k += 1
+    key = (base or f).key
+    return any(w in key for w in words)
